@@ -532,6 +532,28 @@ def run(ctx):
     ctx.rule('C04.6-config-constructors', 'ConnectionConfig::new and ::new_hidden build the same configuration except for the flag set (hidden nodes do not publish): cookie, names, creation, timeout and EPMD host are initialised alike', floor=1)
     _sib(ctx, P, 'C04.6-config-constructors', 'edp_client::connection::ConnectionConfig', ['edp_client::connection::ConnectionConfig::new', 'edp_client::connection::ConnectionConfig::new_hidden'], {'flags'})
 
+    # "ends in an error within the configured timeout": one timed read per handshake step, not a loop of timed reads
+    ctx.rule('C04.8-one-read-per-step', 'no function of Connection reachable from the handshake steps reads a message inside a loop: each step waits for exactly one message, so the step as a whole is bounded by the timeout of that read '
+             '(a loop that skips "empty" or unexpected frames can be kept turning by the peer for ever, and lets frames through that the protocol does not have at this point)', floor=0)
+    from ..wire import _sccs as _sccs4
+    hs_roots = ['edp_client::connection::Connection::%s::{closure#0}' % s_ for s_ in ('receive_status', 'receive_challenge', 'receive_challenge_ack', 'send_name', 'send_challenge_reply', 'send_complement')]
+    n_lp = 0
+    for q in sorted(P.reachable_from([r for r in hs_roots if r in ctx.F.bodies])):
+        if not q.startswith('edp_client::connection::Connection::'):
+            continue
+        LB = P.B(q)
+        for comp in _sccs4(LB, LB.live_blocks()):
+            if len(comp) < 2:
+                continue
+            cs = set(comp)
+            readers = [bb for bb, t in LB.calls() if bb in cs and any(n.endswith('::read_message') or n.endswith('::read_framed') or n.endswith('FramedTransport::read') or 'AsyncReadExt' in n for n in callee_names(t))]
+            if readers:
+                n_lp += 1
+                ctx.bad('C04.8-one-read-per-step', q.split('::{')[0].rsplit('::', 1)[-1], '%s reads handshake messages in a loop: the step no longer ends with the timeout of one read, and messages the protocol does not allow at this step are skipped instead of refused'
+                        % q.split('::{')[0].rsplit('::', 1)[-1], ctx.where(LB, readers[0]), key='LOOP:%s:handshake-read-in-loop' % q.split('::{')[0])
+    if n_lp == 0:
+        ctx.ok('C04.8-one-read-per-step', 'handshake', 'no read loop in the Connection functions reachable from the handshake steps')
+
 
 def check_digest(ctx):
     B = ctx.body('edp_client::digest::compute_digest')
@@ -693,9 +715,13 @@ def check_writer(ctx, path, row, rule, armed):
             ctx.info_note('informational codec %s not present' % path)
         return
     seqs, trunc = success_sequences(B, lambda B, bb: io_events(B, bb))
+    silent = any(not s for s in seqs)
     seqs = {s for s in seqs if s}
     inst = path.split('::', 2)[-1]
     report_bad = ctx.bad if armed else (lambda r, i, d, w=None, key=None: ctx.info_note('%s: %s' % (i, d)))
+    if silent and seqs:
+        report_bad(rule, inst + ':always', 'a successful return of %s writes nothing at all: on that path the message the protocol prescribes at this step is not emitted (the peer reads the next message in its place)' % inst,
+                   ctx.where(B), key='WIRE:%s:success-path-writes-nothing' % path)
     if len(seqs) != 1:
         (ctx.undecided if armed else (lambda r, i, d, w=None: ctx.info_note('%s: %s' % (i, d))))(rule, inst, 'writer has %d distinct success layouts: %s' % (len(seqs), [fmt_seq(s) for s in seqs]), ctx.where(B))
         return
